@@ -22,7 +22,9 @@ MUT_CALLS = {"create_group", "require_group"}
 
 
 class Den:
-    def __init__(self, fn, project=None):
+    def __init__(self, fn, project=None, bind=None, env=None, uids=None):
+        """bind / env / uids (optional, see `callee_den`): what the parameters stand for at one call site — an expression of the
+        caller (substituted like a single-assignment local), the nodes a handle argument denotes, the entity whose uid a key is."""
         self.fn = fn
         self.p = project
         self.node = fn.node
@@ -39,6 +41,16 @@ class Den:
                 self.env[prm] = {(("PARAM", prm),)}
         if "uid" in params:
             self.uid_of["uid"] = "param:uid"
+        rebound = {x.id for n in ast.walk(fn.node) for x in ast.walk(n) if isinstance(x, ast.Name) and isinstance(x.ctx, ast.Store)}
+        for prm, e in (bind or {}).items():
+            mentioned = {x.id for x in ast.walk(e) if isinstance(x, ast.Name)}
+            if prm not in rebound and not mentioned & (rebound | set(self.sa) | {prm}):  # (no capture, no cycle)
+                self.sa[prm] = e
+        for prm, w in (env or {}).items():
+            if w:
+                self.env[prm] = set(w)
+        for prm, u in (uids or {}).items():
+            self.uid_of[prm] = u
         changed, rounds = True, 0
         while changed and rounds < 12:
             changed, rounds = False, rounds + 1
@@ -171,6 +183,54 @@ class Den:
                     return self.paths(f.value)
         return set()
 
+    def callee_den(self, call, view=None):
+        """(callee FuncInfo, Den of the callee at THIS call site) for a call to a package function / method of the same class that was
+        not expanded in place: handle arguments carry their denotation, uid arguments the entity they name, every other argument its
+        (alias-expanded) expression of the caller.  None when the callee cannot be resolved or the arguments cannot be matched."""
+        if self.p is None:
+            return None
+        target = _resolve_callee(self.fn, self.p, call)
+        if target is None or target.node is self.node:
+            return None
+        a = target.node.args
+        if a.vararg or a.kwarg or any(isinstance(x, ast.Starred) for x in call.args) or any(k.arg is None for k in call.keywords):
+            return None
+        tv_ = target
+        if view is not None:
+            try:
+                tv_ = view(target)
+            except Exception:  # noqa: BLE001
+                tv_ = target
+        params = [x.arg for x in a.posonlyargs + a.args]
+        if target.kind in ("method", "classmethod") and isinstance(call.func, ast.Attribute) and params:
+            params = params[1:]
+        given = dict(zip(params, call.args))
+        for k in call.keywords:
+            given[k.arg] = k.value
+        bind, env, uids = {}, {}, {}
+        own = {x.id for x in ast.walk(tv_.node) if isinstance(x, ast.Name) and isinstance(x.ctx, ast.Store)} | set(params)
+        for prm, arg in given.items():
+            if isinstance(arg, ast.Name) and arg.id == prm:
+                xa = expanded(arg, self.node, self.sa)
+                if isinstance(xa, ast.Name) and xa.id == prm:
+                    w = self.paths(arg)
+                    if w:
+                        env[prm] = w
+                    elif self.uid_expr(arg) is not None:
+                        uids[prm] = self.uid_expr(arg)
+                    continue  # same name on both sides
+            if any(isinstance(x, ast.Name) and x.id in own for x in ast.walk(expanded(arg, self.node, self.sa))) and not self.paths(arg) and self.uid_expr(arg) is None:
+                return None  # the caller's expression would be captured by a name of the callee
+            w = self.paths(arg)
+            u = self.uid_expr(arg)
+            if w:
+                env[prm] = w
+            elif u is not None:
+                uids[prm] = u
+            else:
+                bind[prm] = expanded(arg, self.node, self.sa)
+        return tv_, Den(tv_, self.p, bind=bind, env=env, uids=uids)
+
     def _accessor(self, call):
         """(handle arg, key arg) when `call` goes to a package function that does nothing but hand out the child `handle[key]`
         (creating it when missing): every return is handle[key] / handle.get(key) / handle.create_group(key) / require_group(key)."""
@@ -230,3 +290,135 @@ def fmt(p) -> str:
             return f"<{x[0].lower()}>"
         return str(x[1])
     return "/".join(s(x) for x in p)
+
+
+# ---------------------------------------------------------------------------------------------------------------------------------
+# Calls to PURE package functions that only hand back names (a table-driven / isinstance-chain helper choosing the container of an
+# entity or of a type): for the denotation the call stands for the set of constants it can return.  `fold_const_calls` gives a copy
+# of the function in which such calls are replaced by `c1 or c2 or ...`, which `const_values` (sa/roles.py) evaluates to that set.
+_PURE_BUILTINS = {"isinstance", "issubclass", "type", "len", "str", "getattr", "hasattr", "tuple", "list", "next", "iter"}
+
+
+def _resolve_callee(fn, project, call):
+    f = call.func
+    if isinstance(f, ast.Name):
+        r = project.resolve_name(fn.module, f.id)
+        return r[1] if r and r[0] == "func" else None
+    if isinstance(f, ast.Attribute) and isinstance(f.value, ast.Name):
+        if f.value.id in ("cls", "self") and fn.cls is not None:
+            m = fn.cls.lookup(f.attr)
+            return m[2] if m and m[1] == "method" else None
+        r = project.resolve_name(fn.module, f.value.id)
+        if r and r[0] == "class":
+            m = r[1].lookup(f.attr)
+            return m[2] if m and m[1] == "method" else None
+    return None
+
+
+def _module_literal(mod, e, _depth=0):
+    """`e` with module-level names bound to literal tables replaced by those tables (A, A + B)"""
+    import copy
+
+    if _depth > 4:
+        return e
+    if isinstance(e, ast.Name) and mod is not None and e.id in getattr(mod, "assigns", {}):
+        v = mod.assigns[e.id]
+        if isinstance(v, (ast.Tuple, ast.List, ast.Dict, ast.Set, ast.Constant, ast.BinOp)):
+            return _module_literal(mod, copy.deepcopy(v), _depth + 1)
+    if isinstance(e, ast.BinOp) and isinstance(e.op, ast.Add):
+        l, r = _module_literal(mod, e.left, _depth + 1), _module_literal(mod, e.right, _depth + 1)
+        if isinstance(l, (ast.Tuple, ast.List)) and isinstance(r, (ast.Tuple, ast.List)):
+            return ast.copy_location(type(l)(elts=list(l.elts) + list(r.elts), ctx=ast.Load()), e)
+    return e
+
+
+def const_returns(target, view=None, call=None, caller=None):
+    """the set of string constants a side-effect-free function can return (`None` results dropped), or None when it is not such a
+    function.  With `call` (and the calling FuncInfo): parameters are bound to the literal arguments / defaults of that call."""
+    import copy
+
+    try:
+        v = view(target) if view is not None else target
+    except Exception:  # noqa: BLE001
+        v = target
+    node = v.node
+    for n in ast.walk(node):
+        if isinstance(n, (ast.Delete, ast.With, ast.Global, ast.Nonlocal, ast.Yield, ast.YieldFrom, ast.Await, ast.Raise, ast.Try, ast.Lambda)):
+            return None
+        if isinstance(n, (ast.FunctionDef, ast.AsyncFunctionDef, ast.ClassDef)) and n is not node:
+            return None
+        if isinstance(n, (ast.Assign, ast.AugAssign, ast.AnnAssign)):
+            tgs = n.targets if isinstance(n, ast.Assign) else [n.target]
+            if any(not isinstance(x, (ast.Name, ast.Tuple, ast.List)) for t in tgs for x in ([t] + (list(t.elts) if isinstance(t, (ast.Tuple, ast.List)) else []))):
+                return None
+        if isinstance(n, ast.Call) and not (isinstance(n.func, ast.Name) and n.func.id in _PURE_BUILTINS):
+            return None
+    # bind the parameters that receive a literal (argument of this call, else the default) in front of a parameter-less copy
+    a = node.args
+    params = [x.arg for x in a.posonlyargs + a.args]
+    defaults = dict(zip(params[len(params) - len(a.defaults):], a.defaults))
+    for k, d in zip(a.kwonlyargs, a.kw_defaults):
+        params.append(k.arg)
+        if d is not None:
+            defaults[k.arg] = d
+    bound = {k: _module_literal(target.module, d) for k, d in defaults.items()}
+    if call is not None:
+        pos = params[1:] if target.kind in ("method", "classmethod") and isinstance(call.func, ast.Attribute) else params
+        cmod = caller.module if caller is not None else None
+        for prm, arg in zip(pos, call.args):
+            bound[prm] = _module_literal(cmod, arg)
+        for kw_ in call.keywords:
+            if kw_.arg is not None:
+                bound[kw_.arg] = _module_literal(cmod, kw_.value)
+    pre = []
+    for prm, e in bound.items():
+        if any(isinstance(x, ast.Name) and x.id in params for x in ast.walk(e)):
+            continue  # an argument that is itself a local of the caller: left unbound
+        pre.append(ast.Assign(targets=[ast.Name(id=prm, ctx=ast.Store())], value=copy.deepcopy(e), lineno=node.lineno))
+    synth = ast.FunctionDef(name=node.name, args=ast.arguments(posonlyargs=[], args=[], kwonlyargs=[], kw_defaults=[], defaults=[]),
+                            body=pre + copy.deepcopy(node.body), decorator_list=[], lineno=node.lineno)
+    ast.fix_missing_locations(synth)
+    out, seen_ret = set(), False
+    for r in ast.walk(synth):
+        if not isinstance(r, ast.Return):
+            continue
+        seen_ret = True
+        if r.value is None:
+            continue
+        cv = const_values(r.value, synth)
+        if cv is None or not all(isinstance(x, str) for x in cv):
+            return None
+        out |= cv
+    return (out or None) if seen_ret else None
+
+
+def fold_const_calls(fn, project, view=None):
+    """FuncInfo like `fn` whose calls to pure name-choosing package functions are replaced by the disjunction of the names they can
+    return (same line numbers).  `view`: optional normaliser (ctx.view) applied to the callee, so that its hoisted tables are literal."""
+    import copy
+    from dataclasses import replace
+
+    cache: dict = {}
+
+    class Fold(ast.NodeTransformer):
+        changed = False
+
+        def visit_Call(self, node):
+            self.generic_visit(node)
+            target = _resolve_callee(fn, project, node)
+            if target is None or target.node is fn.node:
+                return node
+            key = (id(target), ast.dump(node))
+            if key not in cache:
+                cache[key] = const_returns(target, view, node, fn)
+            vals = cache[key]
+            if not vals:
+                return node
+            consts = [ast.copy_location(ast.Constant(value=v), node) for v in sorted(vals)]
+            Fold.changed = True
+            return consts[0] if len(consts) == 1 else ast.copy_location(ast.BoolOp(op=ast.Or(), values=consts), node)
+
+    new = Fold().visit(copy.deepcopy(fn.node))
+    if not Fold.changed:
+        return fn
+    return replace(fn, node=ast.fix_missing_locations(new))
